@@ -195,8 +195,17 @@ def oracle(w):
     lost = False
     fresh_session = False
     t_req = {}     # reset request -> time it was made (the one that armed the timeout: no other request pending then)
+    prev_st = None
     for (batch, entries, st), now in zip(w.events, w.times):
         prims = batch.split("+")
+        # the receiver's rule, also right after a handshake: a DATA frame carrying the number the host expects is handed up - whatever
+        # was received in the session before
+        if len(prims) == 1 and prims[0].startswith("F=D:") and prev_st is not None and "failed=0" in prev_st and not lost:
+            fn, pay = int(prims[0].split(":")[1]), prims[0].split(":")[4]
+            if f"rx={fn} " in prev_st + " " and ("U" + pay) not in entries:
+                return (f"DATA frame {prims[0][2:]} arrived with the expected frame number {fn} ({prev_st}) and was not handed up "
+                        f"(entries {entries})")
+        prev_st = st
         # ---- the reset timeout: an unanswered request raises TimeoutError exactly RESET_TIMEOUT after it was made, whatever
         # else arrives meanwhile
         for e in entries:
@@ -315,6 +324,9 @@ def cases(ctx):
     for tx in range(8):
         cs.append((tx, (tx * 3) % 8, ["R=1", "T", "R=2", "F=K:2:11"]))
         cs.append((tx, 0, ["R=1", "T", "R=2", "W=3000", "F=K:2:11"]))
+    # the first frame of the new session is byte-identical to the last frame of the old one (the same answer to the same first query)
+    for rx in range(8):
+        cs.append((0, rx, [f"F=D:{rx}:0:0:aa", "R=1", "F=K:2:11", "F=D:0:0:0:aa", "F=D:1:0:0:aa"]))
     # a reset abandoned by its caller, then a new one: the new request has its own full timeout and is completed by its own RSTACK
     for w1 in (300, 2000, 4500):
         for w2 in (100, 1500):
